@@ -137,3 +137,128 @@ Proof.
   intros; apply helpers_resume.
 Qed.
 Print Assumptions C07_helpers.
+
+(* ===================================================================================
+   Nested monitors as ONE history (Coro/MonitorNested.v, Coro/MonitorNestedProofs.v).
+
+   Configuration: the driver makes calls on the outer monitor M1 (number m1) to drive
+   coroutine A; A drives ONE sub-coroutine B through inner monitors.
+   * B is any [mtree] (real suspensions, `await M.oob(d)` for every monitor M -- M1, the
+     inner one, third ones --, effects; nested calls and handlers are folded into the tree
+     by tawait_ / MonitorCorr.tdenote) with [no_lost b] (C07's carve-out) and [gx_ok m1 b]:
+     B never answers a GeneratorExit with `await M1.oob(..)` as its next suspension (when the
+     GeneratorExit comes from the inner relay's B.close() this is "oob() while being
+     closed": the yield is swallowed and M1.state stays -1; ex_gx_confuses shows that the
+     hypothesis is necessary).
+   * A is any [aprog]: a well-founded tree over {return, raise, log, own real suspension
+     [ASusp], own `await M.oob(d)` [AOob], `r = await M.<cl>(B)` [ACall m cl k] with a
+     continuation k for EVERY result: k (RVal v), k (RExc e), k (RExc (OOBData d))};
+     [adenote a o] is its code (call_k of Monitor.v at every ACall); the handler loop
+     "answer every datum d of M2 with f d and continue" is [aloop m2 f n v] (n times
+     unrolled); the script coroutines of the correspondence stream `nest` are
+     [of_items items] (script_as_aprog).
+   * [nsession m1 s (NNew a (TNew b)) h]: the REFERENCE: a two-level interpreter of the pair
+     (a, b) that never inspects a flag to classify a yielded value: a datum belongs to the
+     monitor named in its oob node and is delivered to the innermost enclosing relay of that
+     monitor -- [irelay]: an oob node of B for the monitor A is calling through ends A's call
+     with OOBData d and B stays at the node; any other oob node of B and every real suspension
+     of B leave A suspended inside its call ([KIn m cl ka kb]) and go outward; [nrelay]: at M1
+     an oob node of m1 (B's or A's) ends the driver's call with OOBData d, everything else is
+     yielded to the driver.  Inputs go to the node that is suspended ([nresume]: kb i), the
+     next call's input to the node the previous call stopped at (tfirst_call (TAt kb)), results
+     and exceptions of B to A's continuation of that call, those of A to the driver's call. *)
+From Asynkit Require Import Coro.MonitorNested Coro.MonitorNestedProofs.
+
+(* For EVERY body of B, EVERY program of A, every store and EVERY driver history on M1, the
+   two-monitor run of the model (out-of-band data recognised by the state flags, as
+   monitor.py does) IS the reference run: per step the same events of A and B, the same
+   outcome at the M1 driver, the same store (all Monitor.state cells).  Hence each
+   M1.oob(d) of B surfaces exactly once, in program order, as OOBData d at the M1 driver,
+   having passed the inner relay untouched; each oob of the inner monitor surfaces exactly
+   once at A (k (RExc (OOBData d))) and never at the driver; real suspensions reach the driver
+   in order; answers return to the oob that asked. *)
+Theorem C07_nested_history : forall m1 a b s h, no_lost b -> gx_ok m1 b ->
+  msession m1 s (New (adenote a (New (emb b)))) h = nsession m1 s (NNew a (TNew b)) h.
+Proof. exact nested_history. Qed.
+Print Assumptions C07_nested_history.
+
+(* The same for the coroutines the correspondence check runs against asynkit (stream `nest`:
+   MonitorCorr.node_tree (NMid items (NBody p)) = script_k items (New (emb (tbody p)))):
+   script_k items is bisimilar to the aprog [of_items items], and sessions do not
+   distinguish bisimilar coroutine objects. *)
+Theorem C07_nested_history_scripts : forall m1 items b s h, no_lost b -> gx_ok m1 b ->
+  (forall o, eqv (script_k items o) (adenote (of_items items) o))
+  /\ msession m1 s (New (script_k items (New (emb b)))) h
+     = nsession m1 s (NNew (of_items items) (TNew b)) h.
+Proof.
+  intros; split; [intro; apply script_as_aprog | apply nested_history_script; assumption].
+Qed.
+Print Assumptions C07_nested_history_scripts.
+
+(* Idle after every call, for both monitors (m2 <> m1 any inner monitor):
+     InvO s o := nobj_good m1 s o /\ mstate s m2 = (if A is suspended inside a call through m2 then 1 else 0)
+     InvK s k := the same for a continuation k of A, with nk_good
+     idle_post s' st := match st with
+                        | GEnd o' _ => mstate s' m1 = 0 /\ InvO s' o'     (the driver's call is over)
+                        | GSusp _ k => mstate s' m1 = 1 /\ InvK s' k      (suspended at a real suspension)
+                        end
+   i.e. after every aawait/athrow that returns or raises M1 is idle, and M2 is idle unless A is
+   still suspended inside M2.<call>(B) (then it is active, never -1); the postcondition of a
+   step is the precondition of the next one and holds initially, so this is true after every
+   step of every history (by the history theorem the model's stores are these stores). *)
+Theorem C07_nested_idle : forall m1 m2, m2 <> m1 ->
+  (forall a b s, no_lost b -> gx_ok m1 b -> mstate s m2 = 0 -> InvO m1 m2 s (NNew a (TNew b)))
+  /\ (forall s cl o, InvO m1 m2 s o -> mstate s m1 = 0 ->
+        let '(_, s', st) := ncall_run m1 s o cl in idle_post m1 m2 s' st)
+  /\ (forall s cl k i, InvK m1 m2 s k -> mstate s m1 = 1 ->
+        let '(_, s', st) := ncall_resume m1 cl s k i in idle_post m1 m2 s' st).
+Proof.
+  intros m1 m2 Hne. split; [|split].
+  - intros; apply nested_idle_init; assumption.
+  - intros s cl o. apply (proj1 (nested_idle_step m1 m2 Hne s cl)).
+  - intros s cl k i. apply (proj2 (nested_idle_step m1 m2 Hne s cl)).
+Qed.
+Print Assumptions C07_nested_idle.
+
+(* Re-entrant use while nested.  [reentered] = RExc (RuntimeError "Monitor cannot be
+   re-entered").  While M1 is in use (state <> 0) a call `r = await M1.<cl>(o)` -- on any
+   coroutine object o, any of the five calls -- issued by A's code (under M1's relay), or by
+   B's code TWO levels down (under M2's relay under M1's relay), and while M2 is in use a call
+   through M2 issued by B, is the statement `r = reentered`: no event, the same store (both
+   uses in progress keep their state), the same object o, and the relays go on with the
+   caller's continuation [kont o reentered] exactly as if that had been written there.  Inside
+   the history theorem the same is [nrun_reentered] (an ACall through a monitor in use, in
+   particular through M1, which is active whenever A runs). *)
+Theorem C07_nested_reentrancy : forall m1 m2 fa fb s o cl kont kontB kcB, skips cl o = false ->
+  (mstate s m1 <> 0 ->
+     relay_run m1 fa s (call_k m1 o cl kont) = relay_run m1 fa s (kont o reentered)
+     /\ relay_run m1 fa s (relay_k m2 fb (call_k m1 o cl kont) kontB kcB)
+        = relay_run m1 fa s (relay_k m2 fb (kont o reentered) kontB kcB))
+  /\ (mstate s m2 <> 0 ->
+     relay_run m1 fa s (relay_k m2 fb (call_k m2 o cl kont) kontB kcB)
+     = relay_run m1 fa s (relay_k m2 fb (kont o reentered) kontB kcB))
+  /\ (forall m k bo, mstate s m <> 0 -> tskips cl bo = false ->
+     nrun s (ACall m cl k) bo = nrun s (k reentered) bo).
+Proof.
+  intros m1 m2 fa fb s o cl kont kontB kcB Hs.
+  destruct (nested_reentrancy m1 m2 fa fb s o cl kont kontB kcB Hs) as [H1 H2].
+  split; [exact H1|]. split; [exact H2|]. intros; apply nrun_reentered; assumption.
+Qed.
+Print Assumptions C07_nested_reentrancy.
+
+(* B = [a = oob2 1; b = suspend 11; c = oob1 2 (exceptions caught); return oob2 3], A = the
+   handler loop answering d with d + 100 (logging EUser 2 d), M1 = 1, M2 = 2, driver history
+   [aawait(None) answering the suspension with 31; athrow(E 5)].  Per step: what surfaced at
+   the M1 driver, M1.state, M2.state; then the log of A and B. *)
+Example C07_nested_example :
+  no_lost exB /\ gx_ok 1 exB
+  /\ surfaced 1 2 (msession 1 [] (New (adenote exA (New (emb exB)))) exH)
+     = [ [(OYield (VInt 11), 1, 1); (ORaise (OOBData (VInt 2)), 0, 1)];
+         [(OReturn (VInt 103), 0, 0)] ]
+  /\ logged (msession 1 [] (New (adenote exA (New (emb exB)))) exH)
+     = [EUser 2 (VInt 1); ERecv (VInt 101); ERecv (VInt 31); ECaught (E 5); EUser 2 (VInt 3)].
+Proof.
+  split; [exact (proj1 ex_good)|]. split; [exact (proj2 ex_good)|].
+  split; vm_compute; reflexivity.
+Qed.
+Print Assumptions C07_nested_example.
